@@ -6,6 +6,8 @@ import FitProofs.DecodeEncode
 import FitProofs.Chain
 import FitProps.C01
 import FitProps.C10
+import FitProps.C07Fix
+import FitProps.C07Ok
 /-!
   C07 — anything Decode accepts can be re-encoded, and one round trip is a fixpoint.
 
@@ -18,6 +20,14 @@ import FitProps.C10
   decodes to the same content; the second round trip is a fixpoint) are checked on every run over all
   accepted inputs by the correspondence and the generation-1/2/3 oracle; C05/C06 prove them for Files
   in `fileRTB`.
+
+  **`second_trip_fixpoint`** proves the last clause on that domain: for a File in `fileRTB` (C06)
+  of the typed shape whose messages have no component fields, the File `F1` that `Decode` returns
+  for `Encode f` is a fixed point of the trip — encoded again in either byte order, if `Encode`
+  accepts it, it decodes to the same file_id, file_creator, timestamp_correlation and, slot by
+  slot, the same messages (FitProps/C07Fix.lean: `fileRTB_wire`, the domain is closed under the
+  trip; FitProofs/Fixpoint.lean: `wireMsg_idem`, padding to the profile length is idempotent, and a
+  field no message of a slice carries is still such a field afterwards).
 -/
 namespace Fit.Props.C07
 open Fit
@@ -153,5 +163,136 @@ example (r : Reader) (hd : r.data = C10.minFile) (hstop : r.stop = .eof) (arch :
     rw [decode_out_eq_spec, hd, hstop]; exact hspec.2
   obtain ⟨F, hF⟩ := Option.isSome_iff_exists.mp hf
   exact ⟨F, hF, reencode_never_panics_gen {} {} r arch hs F hF⟩
+
+/-- **Second generation: the first trip's result is a fixed point** (instance for the tree under
+    check; generic statement and proof: `Fit.second_trip_fixpoint`). For every File `f` in the
+    decidable round-trip domain of C06 whose messages have no component fields and that `Encode`
+    accepts: `Decode (Encode f)` succeeds with a File `F1`, and for every byte order, if `Encode`
+    accepts `F1`, then `Decode (Encode F1)` succeeds — through any reader, with any options and
+    package state, with anything after the bytes — and returns the same file_id, file_creator,
+    timestamp_correlation, container and slots as `F1`, leaving the accumulators untouched. -/
+theorem second_trip_fixpoint (arch arch2 : Endian) (f f' : FileSt) (bs : Bytes)
+    (h : encode Gen.profile arch f = .ok bs f') (hdom : C06.fileRTB Gen.profile f = true)
+    (hsmall : bs.length < 4294967296)
+    (hsh : ∀ i, f.cidx = some i → C06.fileShapeB (Gen.profile.containers.getD i default) f = true)
+    (hone : ∀ i, f.cidx = some i → ∀ z ∈ (Gen.profile.containers.getD i default).slots.zip f.slots,
+      z.1.many = false → z.2.length ≤ 1)
+    (hnx : ∀ ms ∈ f.slots, ∀ m ∈ ms, expandSet.contains m.num = false)
+    (o : Opts) (g : Globals) (tail : Bytes) (stop : Stop) :
+    ∃ F1 : FileSt,
+      (decodeSpec Gen.profile o .full g (bs ++ tail) stop).1.success ∧
+      (decodeSpec Gen.profile o .full g (bs ++ tail) stop).1.st.file = some F1 ∧
+      ∀ (f2' : FileSt) (bs2 : Bytes), encode Gen.profile arch2 F1 = .ok bs2 f2' → bs2.length < 4294967296 →
+        ∀ (o2 : Opts) (g2 : Globals) (tail2 : Bytes) (stop2 : Stop),
+          ∃ F2 : FileSt,
+            (decodeSpec Gen.profile o2 .full g2 (bs2 ++ tail2) stop2).1.success ∧
+            (decodeSpec Gen.profile o2 .full g2 (bs2 ++ tail2) stop2).1.st.file = some F2 ∧
+            F2.fileId = F1.fileId ∧ F2.creator = F1.creator ∧ F2.tscorr = F1.tscorr ∧ F2.cidx = F1.cidx ∧
+            F2.slots = F1.slots ∧
+            (decodeSpec Gen.profile o2 .full g2 (bs2 ++ tail2) stop2).1.st.glob = g2 :=
+  Fit.second_trip_fixpoint Gen.profile C01.gen_wf C06.gen_containers_ok arch arch2 f f' bs h hdom hsmall
+    (fun i hi => C06.fileShapeB_sound _ f (hsh i hi)) hone hnx o g tail stop
+
+/-- **Second generation, with the second `Encode` derived (C07).** As `second_trip_fixpoint`, and the
+    File `F1` that the first trip returns *is accepted* by `Encode` in every byte order: it cannot
+    panic, because a decoded File is well typed (`reencode_never_panics`), and it cannot fail, because
+    `F1` is in the round-trip domain again and no value of that domain is refused by `writeField`
+    (`encode_no_error`). -/
+theorem second_trip_total_of (P : Profile) (hwf : ProfileWF P = true) (hcont : ∀ c ∈ P.containers, containerOK c = true)
+    (hx : xokB P = true) (hfl : fidLayoutB P = true)
+    (arch arch2 : Endian) (f f' : FileSt) (bs : Bytes)
+    (h : encode P arch f = .ok bs f') (hdom : C06.fileRTB P f = true) (hsmall : bs.length < 4294967296)
+    (hsh : ∀ i, f.cidx = some i → FileShape (P.containers.getD i default) f)
+    (hone : ∀ i, f.cidx = some i → ∀ z ∈ (P.containers.getD i default).slots.zip f.slots, z.1.many = false → z.2.length ≤ 1)
+    (hnx : ∀ ms ∈ f.slots, ∀ m ∈ ms, expandSet.contains m.num = false)
+    (o : Opts) (g : Globals) (tail : Bytes) (stop : Stop) :
+    ∃ F1 : FileSt,
+      (decodeSpec P o .full g (bs ++ tail) stop).1.success ∧
+      (decodeSpec P o .full g (bs ++ tail) stop).1.st.file = some F1 ∧
+      ∃ (bs2 : Bytes) (f2' : FileSt), encode P arch2 F1 = .ok bs2 f2' ∧
+        (bs2.length < 4294967296 →
+          ∀ (o2 : Opts) (g2 : Globals) (tail2 : Bytes) (stop2 : Stop),
+            ∃ F2 : FileSt,
+              (decodeSpec P o2 .full g2 (bs2 ++ tail2) stop2).1.success ∧
+              (decodeSpec P o2 .full g2 (bs2 ++ tail2) stop2).1.st.file = some F2 ∧
+              F2.fileId = F1.fileId ∧ F2.creator = F1.creator ∧ F2.tscorr = F1.tscorr ∧ F2.cidx = F1.cidx ∧
+              F2.slots = F1.slots ∧
+              (decodeSpec P o2 .full g2 (bs2 ++ tail2) stop2).1.st.glob = g2) := by
+  obtain ⟨F1, hsucc, hfile, hrest⟩ :=
+    Fit.second_trip_fixpoint P hwf hcont arch arch2 f f' bs h hdom hsmall hsh hone hnx o g tail stop
+  refine ⟨F1, hsucc, hfile, ?_⟩
+  -- what the first trip says about F1
+  obtain ⟨i, _, hci, _⟩ := decode_encode_content P hwf hcont arch f f' bs h (C06.fileRTB_sound P hwf arch f hdom) hsmall hsh o g tail stop
+  obtain ⟨F1', _, hfile', a1, a2, a3, _, _, _, a7, _, aH⟩ :=
+    decode_encode_identity P hwf hcont arch f f' bs h (C06.fileRTB_sound P hwf arch f hdom) hsmall hsh hone hnx o g tail stop
+  rw [hfile] at hfile'
+  injection hfile' with e
+  subst e
+  have hdom1 : C06.fileRTB P F1 = true :=
+    fileRTB_of_fields P F1 (wireFile P (P.containers.getD i default) f) aH a1 a2 a3 (a7 i hci)
+      (fileRTB_wire P hwf _ f (hone i hci) hdom)
+  -- no panic: F1 is a decoded File
+  let r : Reader := { data := bs ++ tail, stop := stop, sched := [], tick := 0, errWithData := false, pos := 0 }
+  have hs : (decode P o .full g r).1.success := by rw [decode_out_eq_spec]; exact hsucc
+  have hF : (decode P o .full g r).1.st.file = some F1 := by rw [decode_out_eq_spec]; exact hfile
+  obtain ⟨t1, t2⟩ := decoded_file_typed P hwf hx hfl o g r hs F1 hF
+  have hnp : encode P arch2 F1 ≠ .panic := encode_no_panic P hwf arch2 F1 t1 t2
+  -- no error: F1 is in the domain
+  obtain ⟨j, hj⟩ := encode_ok_init P arch f f' bs h
+  have hinit : ∃ j, P.initAns (fileTypeOf F1) = .container j := ⟨j, by rw [fileTypeOf_wire1 P f F1 a1]; exact hj⟩
+  cases he : encode P arch2 F1 with
+  | ok bs2 f2' => exact ⟨bs2, f2', rfl, fun hs2 => hrest f2' bs2 he hs2⟩
+  | panic => exact absurd he hnp
+  | error =>
+    have := encode_no_error P hwf arch2 F1 hdom1 hinit (by intro b x hb; rw [he] at hb; cases hb)
+    rw [he] at this; cases this
+
+
+/-- the instance for the tree under check -/
+theorem second_trip_total (arch arch2 : Endian) (f f' : FileSt) (bs : Bytes)
+    (h : encode Gen.profile arch f = .ok bs f') (hdom : C06.fileRTB Gen.profile f = true)
+    (hsmall : bs.length < 4294967296)
+    (hsh : ∀ i, f.cidx = some i → C06.fileShapeB (Gen.profile.containers.getD i default) f = true)
+    (hone : ∀ i, f.cidx = some i → ∀ z ∈ (Gen.profile.containers.getD i default).slots.zip f.slots,
+      z.1.many = false → z.2.length ≤ 1)
+    (hnx : ∀ ms ∈ f.slots, ∀ m ∈ ms, expandSet.contains m.num = false)
+    (o : Opts) (g : Globals) (tail : Bytes) (stop : Stop) :
+    ∃ F1 : FileSt,
+      (decodeSpec Gen.profile o .full g (bs ++ tail) stop).1.success ∧
+      (decodeSpec Gen.profile o .full g (bs ++ tail) stop).1.st.file = some F1 ∧
+      ∃ (bs2 : Bytes) (f2' : FileSt), encode Gen.profile arch2 F1 = .ok bs2 f2' ∧
+        (bs2.length < 4294967296 →
+          ∀ (o2 : Opts) (g2 : Globals) (tail2 : Bytes) (stop2 : Stop),
+            ∃ F2 : FileSt,
+              (decodeSpec Gen.profile o2 .full g2 (bs2 ++ tail2) stop2).1.success ∧
+              (decodeSpec Gen.profile o2 .full g2 (bs2 ++ tail2) stop2).1.st.file = some F2 ∧
+              F2.fileId = F1.fileId ∧ F2.creator = F1.creator ∧ F2.tscorr = F1.tscorr ∧ F2.cidx = F1.cidx ∧
+              F2.slots = F1.slots ∧
+              (decodeSpec Gen.profile o2 .full g2 (bs2 ++ tail2) stop2).1.st.glob = g2) :=
+  second_trip_total_of Gen.profile C01.gen_wf C06.gen_containers_ok gen_xok gen_fid_layout arch arch2 f f' bs h hdom hsmall
+    (fun i hi => C06.fileShapeB_sound _ f (hsh i hi)) hone hnx o g tail stop
+
+/-- both trips of `C06.exampleSettings`, evaluated: first trip in byte order `a1`, second in `a2` -/
+def secondTripExample (sz : Nat) (a1 a2 : Endian) : Bool :=
+  match encode Gen.profile a1 (C06.exampleSettings sz) with
+  | .ok bs _ =>
+    match (decodeSpec Gen.profile {} .full {} bs .eof).1.st.file with
+    | some F1 =>
+      match encode Gen.profile a2 F1 with
+      | .ok bs2 _ =>
+        decide (bs2.length < 4294967296) &&
+        match (decodeSpec Gen.profile {} .full {} bs2 .eof).1.st.file with
+        | some F2 => decide (F2.slots = F1.slots) && decide (F1.slots = C06.exampleSettingsBack) && decide (F2.fileId = F1.fileId)
+        | none => false
+      | _ => false
+    | none => false
+  | _ => false
+
+set_option maxRecDepth 100000 in
+/-- the premises of `second_trip_fixpoint` are satisfiable, the second `Encode` included: the File
+    that comes back for `C06.exampleSettings` (arrays padded, fillers turned into all-invalid
+    arrays) is accepted by `Encode` in the other byte order and decodes to itself -/
+example : secondTripExample 12 .le .be = true ∧ secondTripExample 14 .be .le = true := by
+  constructor <;> decide +kernel
 
 end Fit.Props.C07
